@@ -7,6 +7,8 @@ cd "$(dirname "$0")"
 export CARGO_NET_OFFLINE=true
 mkdir -p work evidence
 (cd harness && cargo build --offline 2>&1 | tail -3)
+# the same harness and crate without debug assertions / overflow checks (second build profile of every check)
+(cd harness && cargo build --offline --target-dir target-nd --config 'build.rustflags=["--cfg","fast_qr_verif","-C","debug-assertions=off","-C","overflow-checks=off"]' 2>&1 | tail -3)
 harness/target/debug/fqv dump-tables > work/tables.json
 python3 tools/gen_tables.py work/tables.json lean/FastQr/Gen
 cd lean
